@@ -22,22 +22,28 @@ ASSUMPTIONS = ["64-bit int; segments < 2^32 bytes, segment count < 2^32; bytes a
                "a failed pointer-writing / allocating op ends the compared run (the model keeps no state for a failed op)",
                "fuel of write_ptr/copy_struct: theorems are about Ok results, which are never produced by fuel exhaustion"]
 TECHNIQUE = "Coq proof over an executable model + extracted-model/implementation differential run"
-LEVEL_TEXT = ('Proof for the builder incl. cross-message copies + differential run for everything. C05_heap_inv_sublang (HeapOps.v, HeapCopy.v, HeapSteps.v, HeapValid.v): every reachable state of every program in every arena configuration with a root word satisfies valid_message = VOk (ghost object table; every pool handle is a view of it; hinv preserved by every op incl. all copy paths of writePtr/copyStruct, C05_copy_all; hinv implies valid_message). hinv (HeapInv.v): every pointer slot and the root hold the null word, the inline empty struct, a capability pointer or exactly the words the placement switch stores for one table object (structs, lists of every kind incl. composite lists with their tag word), regions inside their segments and pairwise disjoint. Also proved for all arenas/capacities and ALL ops incl. cross-message: allocated regions are zeroed, aligned, inside len<=cap and pairwise disjoint; segments stay word aligned and only grow; every placed pointer resolves with well-formed landing pads; placed_struct_is_spec_valid; heap_inv_partial. All ops are also checked by executing the extracted valid_message + spec tree on the real Marshal bytes of every program.')
-LEVEL_NOTE = ("Theorem C05_heap_inv_sublang (valid_message = VOk in every reachable state, all arena configurations with a "
-              "root word, while the message has < 2^32 segments) covers EVERY op of the builder: all constructors incl. "
-              "NewCompositeList; all data setters; all pointer setters with any handle as source - Struct.SetPtr, "
-              "PointerList.Set, Message.SetRoot, List.SetStruct, Struct.CopyFrom - incl. every copy path of writePtr/copyStruct "
-              "inside the message (C05_copy_all) AND from another message (C05_copy_src_all: any source bytes 0..255, no "
-              "validity of the source assumed; capabilities appended to the capability table); capabilities; the "
-              "handle-creating read ops Root, Struct.Ptr, PointerList.At, List.Struct on both messages; reopen; the read-only "
-              "accessors. The executable predicate sub_prog rejects nothing but arguments outside the Go types' ranges. "
-              "Premises besides the segment bound: source bytes are 0..255 (msg_ok), the source is read with the repaired "
-              "composite-tag check (cfg_strict), and dst_run: data setters are applied to handles of the message under "
-              "construction (a data setter on a SOURCE handle can rewrite the tag word of an overlapping composite list in a "
-              "hostile source after its List handle was read; copying that list then yields an inconsistent composite list - "
-              "see docs/C05.md). NOT covered by the theorem, only by the runs (extracted valid_message + spec decoder on the "
-              "real bytes of every generated program): data setters on source handles followed by copies, arenas without a "
-              "root word. marshal_header_ok is C14's.")
+LEVEL_TEXT = ('Proof for the builder incl. cross-message copies + differential run for everything. C05_heap_inv_tables (HeapOps.v, HeapCopy.v, HeapSteps.v): every reachable state of every program in every arena configuration with a root word has a ghost object table and pad table satisfying hinv (every pool handle is a view of the table; hinv preserved by every op incl. all copy paths of writePtr/copyStruct, C05_copy_all); corollary C05_heap_inv_sublang (HeapValid.v): hinv implies valid_message = VOk, a structural predicate (see note). hinv (HeapInv.v): every pointer slot and the root hold the null word, the inline empty struct, a capability pointer or exactly the words the placement switch stores for one table object (structs, lists of every kind incl. composite lists with their tag word), regions inside their segments and pairwise disjoint. Also proved for all arenas/capacities and ALL ops incl. cross-message: allocated regions are zeroed, aligned, inside len<=cap and pairwise disjoint; segments stay word aligned and only grow; every placed pointer resolves with well-formed landing pads; placed_struct_is_spec_valid; heap_inv_partial. All ops are also checked by executing the extracted valid_message + spec tree on the real Marshal bytes of every program.')
+LEVEL_NOTE = ("HEADLINE THEOREM C05_heap_inv_tables: in every reachable state (all arena configurations with a root word, < 2^32 "
+              "segments) there are an object table and a pad table such that every pointer slot and the root hold the null word, "
+              "the inline empty struct, a capability pointer or exactly the placement words for ONE table object, and objects, "
+              "root word and pads lie inside their segments and are pairwise disjoint; C05_heap_inv_sublang (valid_message = VOk) "
+              "is a strictly weaker corollary: valid_message is STRUCTURAL - it accepts equal regions of different kind and a "
+              "root pointer designating its own word (C05_valid_message_is_structural) - and says nothing about data values. "
+              "Covered: EVERY op of the builder: all constructors incl. NewCompositeList; all data setters; all pointer setters "
+              "with any handle as source incl. every copy path inside the message (C05_copy_all) and from another message "
+              "(C05_copy_src_all: any source bytes 0..255, no validity of the source assumed; capabilities appended to the "
+              "capability table); capabilities; the handle-creating read ops on both messages; reopen; read-only accessors. "
+              "sub_prog rejects nothing but arguments outside the Go types' ranges. Premises besides the segment bound: source "
+              "bytes 0..255 (msg_ok), the source read with the repaired composite-tag check (cfg_strict), dst_run: data setters "
+              "are applied to handles of the message under construction (docs/C05.md). RUNS ONLY (extracted valid_message + spec "
+              "decoder on the real bytes of every generated program): (1) 'an independent decoder reconstructs exactly the tree "
+              "that was written' - there is NO theorem relating the spec decoder's tree to the written values (the pointer "
+              "structure is C05_heap_inv_tables / C04_read_slot, data values are C04's read-back; their composition into a tree "
+              "equality is not stated); (2) the segment table / framing written by Marshal: not a C05 theorem - C14 proves "
+              "C14_encode_is_marshal and C14_unmarshal_roundtrip for segment lists and C04_marshal_roundtrip_states / "
+              "C04_all_paths_states compose them with builder states; Marshal's own segment loading (message.go) is not modelled; (3) data "
+              "setters on source handles followed by copies; (4) arenas without a root word (valid_message itself requires the "
+              "root word); (5) the message after a failed pointer setter / constructor (the run ends there).")
 DESIGN_REF = "DESIGN.md section 6, C05"
 
 classify = bc.classify
